@@ -553,6 +553,8 @@ public:
 
         m_perm.setLinSpaced(m_n, 0, m_n - 1);
         m_permc.clear();
+        // The status describes this call only; it is changed below if a singular pivot is met
+        m_info = CompInfo::Successful;
 
         // Copy data
         m_data.resize((m_n * (m_n + 1)) / 2);
